@@ -1052,6 +1052,50 @@ fn sub_dedup(tier: Tier) -> Sub {
     )
 }
 
+/// CIEs of different address sizes in one version 4 `.debug_frame` table: every entry is padded
+/// to its own address size wherever it starts.
+fn sub_mixed_address_sizes(_tier: Tier) -> Sub {
+    fn variants() -> Vec<WCie> {
+        let mut v = vec![];
+        for addr in [2u8, 4, 8] {
+            for extra in 0..3usize {
+                for fmt64 in [false, true] {
+                    let mut c = WCie::new(4, fmt64, addr, 1, -8);
+                    c.insns = vec![WI::Cfa(7, 8)];
+                    for k in 0..extra {
+                        c.insns.push(WI::SameValue(3 + k as u16));
+                    }
+                    v.push(c);
+                }
+            }
+        }
+        v
+    }
+    let nv = variants().len() as u64;
+    let k = 3u32;
+    let n = seq_count(nv, 1, k);
+    Sub::new(
+        "mixed-address-sizes",
+        n,
+        &format!("every sequence of 1..={} FDEs, each using a version 4 .debug_frame CIE from 18 variants (address size {{2,4,8}} x 0/1/2 extra instructions x 32/64-bit format), FDE j carrying j+1 instructions: entries start at every residue of the larger address sizes; each entry's size is a multiple of its own address size and everything reads back", k),
+        move |ctx, i| {
+            let vars = variants();
+            let seq = seq_decode(nv, 1, k, i);
+            let fdes = seq
+                .iter()
+                .enumerate()
+                .map(|(j, &ci)| WFde { cie: ci, addr: 0x100 * (j as u64 + 1), len: 0x40, lsda: None, insns: (0..=j).map(|x| (x as u32 + 1, WI::CfaOffset(16 + 8 * x as i32))).collect() })
+                .collect();
+            let t = WTable { cies: vars, fdes };
+            ctx.nontriv(1);
+            check_table(ctx, &t, Kind::DebugFrame, i % 2 == 1);
+            if ctx.want_sample() && crate::glue::sample_here(i, 211) {
+                ctx.sample(render_table(&t, Kind::DebugFrame, i % 2 == 1));
+            }
+        },
+    )
+}
+
 pub fn def(_cli_tier: Tier) -> CheckDef {
     // the whole thorough space costs ~10 s: both tiers run it
     let tier = Tier::Thorough;
@@ -1069,7 +1113,7 @@ pub fn def(_cli_tier: Tier) -> CheckDef {
             "padding clause: (size of the initial length field, 4 or 12) + length is a multiple of the address size (DWARF 5 6.4.1)".into(),
         ],
         subs: {
-            let mut v = vec![sub_cie_params(tier), sub_eh_pointers(tier), sub_ra(tier), sub_sequences(tier), sub_advance(tier), sub_operands(tier), sub_register_context(tier), sub_factor_sweep(tier), sub_dedup(tier)];
+            let mut v = vec![sub_cie_params(tier), sub_eh_pointers(tier), sub_ra(tier), sub_sequences(tier), sub_advance(tier), sub_operands(tier), sub_register_context(tier), sub_factor_sweep(tier), sub_dedup(tier), sub_mixed_address_sizes(tier)];
             if mcx::deep() {
                 v.push(sub_sequences_len4_core());
             }
